@@ -332,8 +332,13 @@ def cases(draw):
 @st.composite
 def long_cases(draw):
     c = draw(cases())
+    # (well damped, no gyroscopic / heavy-dashpot extras: a sweep of thousands of points passes every resonance
+    # closely, where a modal solution of a lightly damped model is limited by the sharpness of the resonance and its
+    # eigenvector conditioning rather than by the conditioning of the dynamic stiffness the tolerance is built on)
     c.update(freq_long=draw(st.sampled_from([4097, 5000, 8193])), nS=min(c["nS"], 4), nL=min(c["nL"], 3),
-             nb=min(c["nb"], 2), fs="none")
+             nb=min(c["nb"], 2), fs="none", gyroS=0.0, gyroL=0.0, heavyS=0.0, heavyL=0.0, zeta=0.2)
+    if c["propS"] and c["propL"]:
+        c["propS"] = False                       # (at least one model on the coupled, complex-mode path)
     return c
 
 
